@@ -45,6 +45,7 @@ type Req struct {
 	Stdout bool
 	NoExec bool
 	Shared bool
+	PrintRaw bool // call PrintSyntaxTree() on the process's standard output (not captured per call)
 }
 
 type Res struct {
@@ -137,6 +138,9 @@ func collect[U Uint](p *{{.Type}}[U], err error, req *Req, res *Res) {
 	var wb bytes.Buffer
 	p.WriteSyntaxTree(&wb)
 	res.Write = wb.String()
+	if req.PrintRaw {
+		p.PrintSyntaxTree()
+	}
 	if req.Stdout {
 		res.Stdout = captureStdout(func() { p.PrintSyntaxTree() })
 		p.Pretty = !p.Pretty
@@ -305,6 +309,7 @@ type head struct {
 	Conc []json.RawMessage // Mode=="conc": sub-requests run concurrently
 	Gor  int
 	Reps int
+	Print bool // redirect the process's standard output to a file while the goroutines run; report its byte histogram
 }
 
 func call(pkg string, raw []byte) []byte {
@@ -370,6 +375,14 @@ func conc(h *head) []byte {
 		json.Unmarshal(h.Conc[i], &subs[i])
 	}
 	per := make([][]rec, h.Gor)
+	var outFile *os.File
+	oldStdout := os.Stdout
+	if h.Print {
+		if f, err := os.CreateTemp("", "conc-stdout-*"); err == nil {
+			outFile = f
+			os.Stdout = f
+		}
+	}
 	t0 := time.Now()
 	var wg sync.WaitGroup
 	for g := 0; g < h.Gor; g++ {
@@ -392,6 +405,22 @@ func conc(h *head) []byte {
 		}(g)
 	}
 	wg.Wait()
+	var hist map[string]int
+	if outFile != nil {
+		os.Stdout = oldStdout
+		outFile.Seek(0, 0)
+		hist = map[string]int{}
+		rd := bufio.NewReader(outFile)
+		for {
+			b, err := rd.ReadByte()
+			if err != nil {
+				break
+			}
+			hist[fmt.Sprint(b)]++
+		}
+		outFile.Close()
+		os.Remove(outFile.Name())
+	}
 	results := make([]map[string]int, n)
 	for i := range results {
 		results[i] = map[string]int{}
@@ -425,8 +454,9 @@ func conc(h *head) []byte {
 		Overlap int
 		Calls   int
 		Results []map[string]int
+		StdoutHist map[string]int
 	}
-	b, _ := json.Marshal(outT{Seq: h.Seq, Overlap: overlap, Calls: calls, Results: results})
+	b, _ := json.Marshal(outT{Seq: h.Seq, Overlap: overlap, Calls: calls, Results: results, StdoutHist: hist})
 	return b
 }
 `
